@@ -6,7 +6,7 @@ import hashlib
 
 from . import common
 
-TAGS = ['accepted', 't1', 't2', 't3']         # tag 0 is 'accepted' (Model/Features.lean)
+TAGS = ['accepted', 't1', 't12', 'acc']       # tag 0 is 'accepted' (Model/Features.lean); prefixes on purpose
 HOOKS = ['scope', 'h1', 'h2']                 # hook 0 is the default 'scope'
 MIXINS = ['Tags', 'Error', 'Volatile', 'Retry']
 CLASSES = ['Machine', 'LockedMachine', 'HierarchicalMachine', 'LockedHierarchicalMachine']
@@ -139,6 +139,15 @@ def gen(rng, cls=None, probe=None, featureless=False):
                 states.append(c)
             if rng.random() < 0.8:
                 s['initial'] = rng.choice(kids)
+    if not featureless and ('Tags' in d['feats'] or 'Error' in d['feats']) and rng.random() < 0.12 and len(states) > 1:
+        # a caller who reuses one tags list for several states
+        sharers = rng.sample(states, rng.randint(2, min(3, len(states))))
+        content = sorted(rng.sample(TAGS[1:], rng.randint(0, 2)))
+        for s in sharers:
+            s['tags'] = list(content)
+            s['tags_ref'] = 'L0'
+        if 'Error' in d['feats'] and rng.random() < 0.6:
+            sharers[0]['accepted'] = True
     d['states'] = states
     names = [s['name'] for s in states]
     d['initial'] = rng.choice(tops)
@@ -333,13 +342,16 @@ def realise(d):
             pass
     models.extend(ModelObj(i, log, idx) for i in range(d['nmodels']))
 
+    lists = {}
+
     def sdef(s):
         i = idx[s['name']]
         o = {'name': s['name'].split(SEP)[-1],
              'on_enter': [make_recorder(log, models, 'enterCb', i, j) for j in range(s['n_enter'])],
              'on_exit': [make_recorder(log, models, 'exitCb', i, j) for j in range(s['n_exit'])]}
         if s.get('tags') is not None:
-            o['tags'] = list(s['tags'])
+            # states with the same 'tags_ref' are handed one and the same list object
+            o['tags'] = lists.setdefault(s['tags_ref'], list(s['tags'])) if s.get('tags_ref') else list(s['tags'])
         if s.get('accepted') is not None:
             o['accepted'] = s['accepted']
         if s.get('hook') is not None:
@@ -397,9 +409,17 @@ def read_tags(d, machine):
 
 def execute(d):
     from transitions.core import MachineError
-    machine, models, log = realise(d)
-    idx = sidx(d)
     r = Run()
+    r.build_error = None
+    try:
+        machine, models, log = realise(d)
+    except Exception as e:          # a valid decorator order / argument set must build
+        r.build_error = '%s: %s' % (type(e).__name__, e)
+        r.tags = r.tags_after = {}
+        r.initial_post = []
+        r.vol_classes = []
+        return r
+    idx = sidx(d)
     r.tags = read_tags(d, machine)
 
     def post():
@@ -436,13 +456,38 @@ def _vol_classes(d, log):
 # ---------------------------------------------------------------------------------------------
 
 def enc_states(d):
+    """states (the `tags=` list is a reference into the heap of the caller's list objects: states that
+    carry the same 'tags_ref' were handed one and the same list) followed by the heap"""
     out = [len(d['states'])]
+    heap = []
+    refs = {}
     for i, s in enumerate(d['states']):
-        tags = [TAGS.index(t) for t in (s.get('tags') or [])]
-        out += [i, len(tags)] + tags + [1 if s.get('accepted') else 0,
-                                        HOOKS.index(s.get('hook') or 'scope'), s.get('retries') or 0,
-                                        1 if has_out(d, s['name']) else 0]
+        if s.get('tags') is None:
+            ref = 0
+        else:
+            key = s.get('tags_ref') or ('own', i)
+            if key not in refs:
+                refs[key] = len(heap)
+                heap.append([TAGS.index(t) for t in s['tags']])
+            ref = refs[key] + 1
+        out += [i, ref, 1 if s.get('accepted') else 0, HOOKS.index(s.get('hook') or 'scope'),
+                s.get('retries') or 0, 1 if has_out(d, s['name']) else 0]
+    out.append(len(heap))
+    for h in heap:
+        out += [len(h)] + h
     return out
+
+
+def shared_accepted(d, name):
+    """the input class of known finding F-C19-shared-tags-list: an Error machine, the state is not declared
+    accepted but was handed the same `tags=` list object as a state declared accepted=True"""
+    s = next((x for x in d['states'] if x['name'] == name), None)
+    if s is None or 'Error' not in d['feats'] or not s.get('tags_ref') or s.get('tags') is None:
+        return False
+    if 'accepted' in eff_tags(s):
+        return False
+    return any(o is not s and o.get('tags_ref') == s['tags_ref'] and o.get('tags') is not None and o.get('accepted')
+               for o in d['states'])
 
 
 def enc_feats(d):
@@ -874,10 +919,12 @@ def shrink_steps(case):
         c['nmodels'] -= 1
         yield mk(c)
     for i, s in enumerate(d['states']):
-        for key in ('tags', 'accepted', 'hook', 'vol'):
+        for key in ('tags_ref', 'tags', 'accepted', 'hook', 'vol'):
             if key in s:
                 c = copy.deepcopy(d)
                 del c['states'][i][key]
+                if key == 'tags':
+                    c['states'][i].pop('tags_ref', None)
                 yield mk(c)
         if 'retries' in s:
             c = copy.deepcopy(d)
